@@ -32,22 +32,23 @@ VARIABLES l,      \* next line
           fs,     \* frame stack for the step rules: Seq of [gas, pc, stk, msize, op, cost, enterGas, self, node]
           calls,  \* the call tree as the callbacks imply it (C07, C08): Seq of expected nodes, in order of entry
           open,   \* indices of the nodes whose CALL/CREATE frame is open, innermost last
+          rfx,    \* refund counter the steps of the run imply: [seen (the top-level frame has ended), ref, ok (every contributing step had its facts)]
           balx,   \* C13 on recorded runs: [exp, got]: balance journal (account, call index) -> values, as the observed transfers imply it / as dumped
           jpx,    \* C05 on recorded runs: [on, pos (callbacks seen in this run), exp (Seq of expected firings), i (firings compared)]
           run,    \* name of the current run
           fork,   \* fork index of the current run
           cnt     \* rule counters
 
-vars == <<l, viol, nviol, fs, calls, open, jpx, balx, run, fork, cnt>>
+vars == <<l, viol, nviol, fs, calls, open, jpx, balx, rfx, run, fork, cnt>>
 
 Comps == {"stream", "gas", "result", "tracerout", "rule", "treeshape", "treecontent", "jpseq", "baljournal"}
 
 Init ==
   /\ l = 1 /\ viol = <<>> /\ nviol = [c \in Comps |-> 0] /\ fs = <<>> /\ calls = <<>> /\ open = <<>> /\ run = "" /\ fork = 0
   /\ jpx = [on |-> FALSE, pos |-> 0, exp |-> <<>>, i |-> 0]
-  /\ balx = [exp |-> <<>>, got |-> <<>>]
+  /\ balx = [exp |-> <<>>, got |-> <<>>] /\ rfx = [seen |-> FALSE, ref |-> 0, ok |-> FALSE]
   /\ cnt = [lines |-> 0, runs |-> 0, steps |-> 0, gascont |-> 0, oog |-> 0, pcrule |-> 0, stackrule |-> 0, constgas |-> 0,
-            memgas |-> 0, callret |-> 0, enters |-> 0, results |-> 0, tracerouts |-> 0, nodes |-> 0, refused |-> 0, trees |-> 0, forkgas |-> 0, firings |-> 0, refunds |-> 0, xfers |-> 0, balvals |-> 0, baljournals |-> 0]
+            memgas |-> 0, callret |-> 0, enters |-> 0, results |-> 0, tracerouts |-> 0, nodes |-> 0, refused |-> 0, trees |-> 0, forkgas |-> 0, firings |-> 0, refunds |-> 0, xfers |-> 0, balvals |-> 0, baljournals |-> 0, refundrule |-> 0, sstorerule |-> 0, callrule |-> 0]
 
 ---------------------------------------------------------------------------
 (* refinement: which fields belong to which component *)
@@ -98,6 +99,53 @@ DynCost(e) ==
   ELSE IF o = 10 /\ e.t1 # "" THEN 10 + (IF fork >= 3 THEN 50 ELSE 10) * (IF e.t1 = "0x0" THEN 0 ELSE HexBytes(e.t1))   \* EXP
   ELSE -1
 
+\* ---- SSTORE: price and refund from (current, original, new value, slot warm) by fork -------------------------------------
+\* legacy rule up to Byzantium and again on Petersburg; net metering EIP-1283 (Constantinople), EIP-2200 (Istanbul),
+\* with cold-slot surcharge EIP-2929 (Berlin), reduced clearing refund EIP-3529 (London)
+Zero(h) == h = "0x0"
+SStore(cur, orig, new, warm) ==
+  LET legacy == fork <= 4 \/ fork = 6
+      clearRefund == IF fork >= 9 THEN 4800 ELSE 15000
+      cold == IF fork >= 8 /\ warm = 0 THEN 2100 ELSE 0
+      sload == IF fork >= 8 THEN 100 ELSE IF fork >= 7 THEN 800 ELSE 200     \* a store that changes nothing, or a slot already dirty
+      reset == IF fork >= 8 THEN 2900 ELSE 5000
+  IN IF legacy
+     THEN [cost |-> IF Zero(cur) /\ ~Zero(new) THEN 20000 ELSE 5000, ref |-> IF ~Zero(cur) /\ Zero(new) THEN 15000 ELSE 0]
+     ELSE IF cur = new THEN [cost |-> cold + sload, ref |-> 0]
+     ELSE IF orig = cur
+          THEN (IF Zero(orig) THEN [cost |-> cold + 20000, ref |-> 0]
+                ELSE [cost |-> cold + reset, ref |-> IF Zero(new) THEN clearRefund ELSE 0])
+          ELSE [cost |-> cold + sload,
+                ref |-> (IF ~Zero(orig) THEN (IF Zero(cur) THEN 0 - clearRefund ELSE IF Zero(new) THEN clearRefund ELSE 0) ELSE 0)
+                        + (IF orig = new THEN (IF Zero(orig) THEN 20000 - sload ELSE reset - sload) ELSE 0)]
+SStoreKnown(e) == e.op = 85 /\ e.cur # "" /\ e.orig # "" /\ e.t1 # "" /\ Len(e.facts) = 1 /\ (fork < 8 \/ e.facts[1] >= 0)
+\* refund this step adds to its frame (SSTORE as above; SELFDESTRUCT 24000 once per contract until London)
+RefundDelta(e) ==
+  IF SStoreKnown(e) THEN SStore(e.cur, e.orig, e.t1, e.facts[1]).ref
+  ELSE IF e.op = 255 /\ Len(e.facts) = 1 THEN (IF fork <= 8 /\ e.facts[1] = 0 THEN 24000 ELSE 0)
+  ELSE 0
+RefundUnknown(e) == (e.op = 85 /\ ~SStoreKnown(e)) \/ (e.op = 255 /\ Len(e.facts) # 1)
+
+\* ---- message calls: price = access + value transfer + new account + memory expansion + gas handed to the callee ------------
+\* operands e.args = <<gas, address, [value,] inOffset, inSize, outOffset, outSize>>, facts = <<target warm, exists, empty, value non-zero>>
+Min(x, y) == IF x < y THEN x ELSE y
+CallCost(e) ==
+  IF ~(e.op \in {241, 242, 244, 250}) \/ Len(e.facts) # 4 THEN -1
+  ELSE LET a == e.args f == e.facts
+           k == IF e.op \in {241, 242} THEN 1 ELSE 0
+           ok == Len(a) = 6 + k /\ a[3 + k] >= 0 /\ a[4 + k] >= 0 /\ a[5 + k] >= 0 /\ a[6 + k] >= 0 /\ (fork < 8 \/ f[1] >= 0) /\ e.gas >= 0
+       IN IF ~ok THEN -1
+          ELSE LET m == e.msize
+                   m2 == Max(NewMsize(m, a[3 + k], a[4 + k]), NewMsize(m, a[5 + k], a[6 + k]))
+                   access == IF fork >= 8 THEN (IF f[1] = 1 THEN 100 ELSE 2600) ELSE IF fork >= 2 THEN 700 ELSE 40
+                   value == IF k = 1 /\ f[4] = 1 THEN 9000 ELSE 0
+                   newacct == IF e.op = 241 /\ (IF fork >= 3 THEN f[4] = 1 /\ f[3] = 1 ELSE f[2] = 0) THEN 25000 ELSE 0
+                   base == access + value + newacct + ExpGas(m, m2)
+                   avail == e.gas - base
+                   cap == avail - (avail \div 64)
+                   fwd == IF fork >= 2 THEN (IF a[1] < 0 \/ a[1] > cap THEN cap ELSE a[1]) ELSE a[1]
+               IN IF avail < 0 \/ fwd < 0 THEN -1 ELSE base + fwd
+
 SortedSeq(S) == LET RECURSIVE f(_) f(T) == IF T = {} THEN <<>> ELSE LET x == CHOOSE y \in T : \A z \in T : y <= z IN <<x>> \o f(T \ {x}) IN f(S)
 \* state-access opcodes whose whole price is fixed per fork (EIP-150, EIP-1884) until EIP-2929 makes it warm/cold:
 \* the set of prices the schedule allows on the fork of this run ({} = not covered)
@@ -126,6 +174,8 @@ StepRules(e) ==
           \cup (IF e.err = "" /\ valid /\ t.gas >= 0 /\ e.cost >= 0 /\ e.cost # t.gas THEN {"constgas:constant-price opcode charged differently"} ELSE {})
           \cup (IF e.err = "" /\ valid /\ DynCost(e) >= 0 /\ e.cost >= 0 /\ e.cost # DynCost(e) THEN {"memgas:memory/copy/hash/log/exp price differs from the schedule"} ELSE {})
           \cup (IF e.err = "" /\ valid /\ ForkPrices(e.op) # {} /\ e.cost >= 0 /\ e.cost \notin ForkPrices(e.op) THEN {"forkgas:state-access price not in the fork's schedule"} ELSE {})
+          \cup (IF e.err = "" /\ valid /\ SStoreKnown(e) /\ e.cost >= 0 /\ e.cost # SStore(e.cur, e.orig, e.t1, e.facts[1]).cost THEN {"sstoregas:SSTORE price differs from the fork's (net-)metering rule"} ELSE {})
+          \cup (IF e.err = "" /\ valid /\ CallCost(e) >= 0 /\ e.cost >= 0 /\ e.cost # CallCost(e) THEN {"callgas:call price differs from access + value + new account + memory + forwarded gas"} ELSE {})
 
 \* the frame record after a step that did not fail
 AfterStep(f, e) ==
@@ -137,7 +187,8 @@ AfterStep(f, e) ==
   IN [f EXCEPT !.gas = IF e.gas >= 0 /\ e.cost >= 0 /\ ~callish THEN e.gas - e.cost ELSE -1,
                !.pc = IF jump THEN (IF e.i0 >= 0 THEN e.i0 ELSE -1) ELSE e.pc + 1 + PushLen(e.op),
                !.stk = IF valid THEN e.stk - t.pops + t.pushes ELSE -1,
-               !.op = e.op, !.cost = e.cost, !.pend = IF callish /\ e.gas >= 0 /\ e.cost >= 0 THEN e.gas - e.cost ELSE -1]
+               !.op = e.op, !.cost = e.cost, !.pend = IF callish /\ e.gas >= 0 /\ e.cost >= 0 THEN e.gas - e.cost ELSE -1,
+               !.ref = @ + RefundDelta(e), !.refok = @ /\ ~RefundUnknown(e)]
 
 ---------------------------------------------------------------------------
 \* journal maps: (account, call index) -> list of values, an immediately repeated value recorded once
@@ -154,7 +205,7 @@ Line ==
      IN CASE a.k = "reset" ->
                /\ run' = a.name /\ fork' = ForkIdx(a.kind) /\ fs' = <<>> /\ calls' = <<>> /\ open' = <<>>
                /\ jpx' = [on |-> a.top = 1, pos |-> 0, exp |-> <<>>, i |-> 0]
-               /\ balx' = [exp |-> <<>>, got |-> <<>>]
+               /\ balx' = [exp |-> <<>>, got |-> <<>>] /\ rfx' = [seen |-> FALSE, ref |-> 0, ok |-> FALSE]
                /\ cnt' = [cnt EXCEPT !.lines = @ + 1, !.runs = @ + 1]
                /\ UNCHANGED <<viol, nviol>>
           [] a.k = "enter" ->
@@ -167,7 +218,7 @@ Line ==
                           parent |-> (IF open = <<>> THEN 0 ELSE open[Len(open)]), outh |-> "", outlen |-> 0, err |-> "", leftx |-> "?", refused |-> FALSE, closed |-> FALSE, pos |-> jpx.pos + 1]
                IN /\ fs' = Push(fs, [gas |-> a.gas, pc |-> 0, stk |-> 0, msize |-> 0, op |-> -1, cost |-> 0, pend |-> -1, enterGas |-> a.gas,
                                       self |-> self, node |-> (IF hasNode THEN Len(calls) + 1 ELSE 0),
-                                      jp |-> (jpx.on /\ a.kind = "CALL" /\ a.code > 0), to |-> a.to])
+                                      jp |-> (jpx.on /\ a.kind = "CALL" /\ a.code > 0), to |-> a.to, ref |-> 0, refok |-> TRUE])
                   /\ calls' = IF hasNode THEN Append(calls, nd) ELSE calls
                   /\ open' = IF hasNode THEN Append(open, Len(calls) + 1) ELSE open
                   \* a message call that runs code fires its pre join point exactly once, after it is announced and before its first instruction
@@ -175,11 +226,11 @@ Line ==
                                          !.exp = IF jpx.on /\ a.kind = "CALL" /\ a.code > 0 THEN Append(@, [pos |-> jpx.pos + 1, to |-> a.to, point |-> "pre"]) ELSE @]
                   /\ AddViol(LineDiffs(a, r) \cup bad, a, r)
                   /\ cnt' = [cnt EXCEPT !.lines = @ + 1, !.enters = @ + 1]
-                  /\ UNCHANGED <<run, fork, balx>>
+                  /\ UNCHANGED <<run, fork, balx, rfx>>
           [] a.k = "exit" ->
                \* the parent gets back what the callee left: gas after the call step = gas - cost + (given - used)
                LET popped == IF fs = <<>> THEN fs ELSE Pop(fs)
-                   child == IF fs = <<>> THEN [enterGas |-> -1] ELSE TopF
+                   child == IF fs = <<>> THEN [enterGas |-> -1, ref |-> 0, refok |-> FALSE] ELSE TopF
                    left == IF child.enterGas >= 0 /\ a.used >= 0 THEN child.enterGas - a.used ELSE -1
                    bad == IF left # -1 /\ left < 0 THEN {"rule"} ELSE {}      \* a frame cannot use more than it was given
                    \* CALL-family: the forwarded gas is part of the step's cost; CREATE/CREATE2: it is taken on top of the cost
@@ -187,9 +238,13 @@ Line ==
                           ELSE LET p == popped[Len(popped)]
                                    back == IF p.pend < 0 \/ left < 0 THEN -1
                                            ELSE IF p.op \in {240, 245} THEN p.pend - child.enterGas + left ELSE p.pend + left
-                               IN [popped EXCEPT ![Len(popped)].gas = back, ![Len(popped)].pend = -1]
+                               \* refunds earned in a frame that ends without error pass to its parent; those of a failed frame are reverted with it
+                               IN [popped EXCEPT ![Len(popped)].gas = back, ![Len(popped)].pend = -1,
+                                                 ![Len(popped)].ref = @ + (IF a.err = "" THEN child.ref ELSE 0),
+                                                 ![Len(popped)].refok = @ /\ (a.err # "" \/ child.refok)]
                    nodeIdx == IF fs = <<>> THEN 0 ELSE TopF.node
                IN /\ fs' = par
+                  /\ rfx' = IF Len(fs) = 1 THEN [seen |-> TRUE, ref |-> (IF a.err = "" THEN child.ref ELSE 0), ok |-> (a.err # "" \/ child.refok)] ELSE rfx
                   \* the node of a CALL/CREATE frame gets the outcome handed back to the issuer
                   /\ calls' = IF nodeIdx = 0 THEN calls
                               ELSE [calls EXCEPT ![nodeIdx].outh = a.outh, ![nodeIdx].outlen = a.outlen, ![nodeIdx].err = a.err,
@@ -225,14 +280,21 @@ Line ==
                                         !.constgas = @ + (IF a.op \in OpDefined /\ OpTable[a.op].gas >= 0 /\ a.err = "" THEN 1 ELSE 0),
                                         !.memgas = @ + (IF a.err = "" /\ DynCost(a) >= 0 THEN 1 ELSE 0),
                                         !.refused = @ + (IF refusedAttempt THEN 1 ELSE 0),
-                                        !.forkgas = @ + (IF a.err = "" /\ ForkPrices(a.op) # {} THEN 1 ELSE 0)]
-                  /\ UNCHANGED <<run, fork, balx>>
+                                        !.forkgas = @ + (IF a.err = "" /\ ForkPrices(a.op) # {} THEN 1 ELSE 0),
+                                        !.sstorerule = @ + (IF a.k = "step" /\ a.err = "" /\ SStoreKnown(a) THEN 1 ELSE 0),
+                                        !.callrule = @ + (IF a.k = "step" /\ a.err = "" /\ CallCost(a) >= 0 THEN 1 ELSE 0)]
+                  /\ UNCHANGED <<run, fork, balx, rfx>>
           [] a.k = "result" \/ r.k = "result" ->
-               /\ AddViol(LineDiffs(a, r), a, r)
+               \* the refund counter at the end of the run is what the SSTORE / SELFDESTRUCT steps of frames that did not fail add up to
+               \* (a.top = 1: the stream was cut; no judgement either when a contributing step lacked its facts)
+               /\ LET refbad == a.k = "result" /\ a.top = 0 /\ rfx.seen /\ rfx.ok /\ a.costx # ToString(rfx.ref)
+                  IN AddViol(LineDiffs(a, r) \cup (IF refbad THEN {"rule"} ELSE {}), a,
+                             IF refbad THEN [r EXCEPT !.name = "refund:the refund counter is not the sum of the refunds of the steps (expected " \o ToString(rfx.ref) \o ")"] ELSE r)
                /\ fs' = <<>>
                /\ cnt' = [cnt EXCEPT !.lines = @ + 1, !.results = @ + 1,
-                                     !.refunds = @ + (IF r.k = "result" /\ r.costx \notin {"", "0"} THEN 1 ELSE 0)]   \* runs that end with a non-zero refund counter
-               /\ UNCHANGED <<run, fork, calls, open, jpx, balx>>
+                                     !.refunds = @ + (IF r.k = "result" /\ r.costx \notin {"", "0"} THEN 1 ELSE 0),
+                                     !.refundrule = @ + (IF a.k = "result" /\ a.top = 0 /\ rfx.seen /\ rfx.ok /\ rfx.ref # 0 THEN 1 ELSE 0)]   \* runs that end with a non-zero refund counter
+               /\ UNCHANGED <<run, fork, calls, open, jpx, balx, rfx>>
           [] a.k = "jp" ->
                \* one firing seen by the Aspect provider: a.d = callbacks recorded before it, a.to = contract, a.name = pre/post
                LET i == jpx.i + 1
@@ -242,13 +304,13 @@ Line ==
                IN /\ AddViol(IF bad THEN {"jpseq"} ELSE {}, a, [r EXCEPT !.d = e.pos, !.to = e.to, !.name = e.point])
                   /\ jpx' = [jpx EXCEPT !.i = i]
                   /\ cnt' = [cnt EXCEPT !.lines = @ + 1, !.firings = @ + 1]
-                  /\ UNCHANGED <<fs, run, fork, calls, open, balx>>
+                  /\ UNCHANGED <<fs, run, fork, calls, open, balx, rfx>>
           [] a.k = "jpend" ->
                \* no expected firing may be missing (a.top = 1: the stream was cut, no judgement)
                LET bad == a.top = 0 /\ (jpx.i # Len(jpx.exp) \/ a.d # Len(jpx.exp))
                IN /\ AddViol(IF bad THEN {"jpseq"} ELSE {}, a, [r EXCEPT !.d = Len(jpx.exp), !.name = "expected number of firings"])
                   /\ cnt' = [cnt EXCEPT !.lines = @ + 1]
-                  /\ UNCHANGED <<fs, run, fork, calls, open, jpx, balx>>
+                  /\ UNCHANGED <<fs, run, fork, calls, open, jpx, balx, rfx>>
           [] a.k = "node" ->
                \* one node of the recorded call tree (index a.d, 1-based; parent a.pc; children a.kids) against the tree the callbacks imply
                LET i == a.d
@@ -264,13 +326,13 @@ Line ==
                IN /\ AddViol(IF a.top = 1 THEN {} ELSE (IF shapeBad THEN {"treeshape"} ELSE {}) \cup (IF contentBad THEN {"treecontent"} ELSE {}), a,
                              [r EXCEPT !.from = e.from, !.to = e.to, !.inh = e.inh, !.outh = e.outh, !.err = e.err, !.usedx = e.leftx, !.gasx = e.gasx, !.pc = e.parent, !.name = "expected from the callbacks"])
                   /\ cnt' = [cnt EXCEPT !.lines = @ + 1, !.nodes = @ + 1]
-                  /\ UNCHANGED <<fs, run, fork, calls, open, jpx, balx>>
+                  /\ UNCHANGED <<fs, run, fork, calls, open, jpx, balx, rfx>>
           [] a.k = "tree" ->
                \* the whole tree: as many nodes as call attempts, cursor at rest, nothing beyond the last index (a.top = 1: the stream was cut, no judgement)
                LET bad == a.top = 0 /\ (a.d # Len(calls) \/ a.pc # 0 \/ a.stk # 0)
                IN /\ AddViol(IF bad THEN {"treeshape"} ELSE {}, a, [r EXCEPT !.d = Len(calls), !.name = "expected node count, cursor nil, nothing beyond"])
                   /\ cnt' = [cnt EXCEPT !.lines = @ + 1, !.trees = @ + 1]
-                  /\ UNCHANGED <<fs, run, fork, calls, open, jpx, balx>>
+                  /\ UNCHANGED <<fs, run, fork, calls, open, jpx, balx, rfx>>
           [] a.k = "xfer" ->
                \* one observed value transfer (a.d = callbacks recorded before it; real balances of sender / recipient before: t0 t1, after: t2 gasx).
                \* The transfer is the last thing before the frame is announced, so it belongs to the node whose enter callback is number a.d + 1;
@@ -284,7 +346,7 @@ Line ==
                IN /\ balx' = [balx EXCEPT !.exp = e4]
                   /\ AddViol(IF a.top = 0 /\ i = 0 THEN {"baljournal"} ELSE {}, a, [r EXCEPT !.name = "a transfer that no CALL/CREATE frame entry follows"])
                   /\ cnt' = [cnt EXCEPT !.lines = @ + 1, !.xfers = @ + 1]
-                  /\ UNCHANGED <<fs, run, fork, calls, open, jpx>>
+                  /\ UNCHANGED <<fs, run, fork, calls, open, jpx, rfx>>
           [] a.k = "balv" ->
                \* one value of the dumped balance journal: account a.to, call index a.d (1-based), position a.pc in its list
                LET k == <<a.to, a.d>>
@@ -292,7 +354,7 @@ Line ==
                IN /\ balx' = [balx EXCEPT !.got = IF k \in DOMAIN @ THEN [@ EXCEPT ![k] = Append(@, a.val)] ELSE @ @@ (k :> <<a.val>>)]
                   /\ AddViol(IF a.top = 0 /\ a.pc # Len(have) + 1 THEN {"baljournal"} ELSE {}, a, [r EXCEPT !.name = "dump out of order"])
                   /\ cnt' = [cnt EXCEPT !.lines = @ + 1, !.balvals = @ + 1]
-                  /\ UNCHANGED <<fs, run, fork, calls, open, jpx>>
+                  /\ UNCHANGED <<fs, run, fork, calls, open, jpx, rfx>>
           [] a.k = "balend" ->
                \* C13: the journal is exactly what the observed transfers imply - nothing missing, nothing more, every list in order
                LET bad == a.top = 0 /\ balx.got # balx.exp
@@ -304,11 +366,11 @@ Line ==
                                        !.name = "expected journal of this account and call: " \o (IF k1 \in DOMAIN balx.exp THEN ToString(balx.exp[k1]) ELSE "none")
                                                 \o ", recorded: " \o (IF k1 \in DOMAIN balx.got THEN ToString(balx.got[k1]) ELSE "none")])
                   /\ cnt' = [cnt EXCEPT !.lines = @ + 1, !.baljournals = @ + (IF a.top = 0 /\ DOMAIN balx.exp # {} THEN 1 ELSE 0)]
-                  /\ UNCHANGED <<fs, run, fork, calls, open, jpx, balx>>
+                  /\ UNCHANGED <<fs, run, fork, calls, open, jpx, balx, rfx>>
           [] OTHER ->     \* tracer outputs, or "none" on the Artela side (the reference stream is longer)
                /\ AddViol(LineDiffs(a, r), a, r)
                /\ cnt' = [cnt EXCEPT !.lines = @ + 1, !.tracerouts = @ + (IF a.k = "tracer" THEN 1 ELSE 0)]
-               /\ UNCHANGED <<fs, run, fork, calls, open, jpx, balx>>
+               /\ UNCHANGED <<fs, run, fork, calls, open, jpx, balx, rfx>>
   /\ l' = l + 1
 
 Next == Line
